@@ -1,5 +1,119 @@
-//! placeholder, filled in by the corresponding check
-pub fn main(_rest: &[String]) -> i32 {
-    eprintln!("not implemented");
-    2
+//! `eval positions <positions.ndjson> <events-out>` and `eval blend <seed> <n> <events-out>`: C16.
+use crate::chess::game::Game;
+use crate::engine::eval::{self, PhasedEval};
+use crate::proj;
+use rand::prelude::*;
+use serde_json::{json, Value};
+use std::collections::HashSet;
+use std::io::{BufRead, Write};
+
+fn mirror_fields(v: &serde_json::Map<String, Value>) -> Value {
+    let b: Vec<i64> = v["b"].as_array().unwrap().iter().map(|x| x.as_i64().unwrap()).collect();
+    let mut mb = vec![0i64; 64];
+    for s in 0..64 {
+        let ms = (7 - s / 8) * 8 + s % 8;
+        let p = b[ms];
+        mb[s] = if p == 0 { 0 } else if p <= 6 { p + 6 } else { p - 6 };
+    }
+    let cr = v["cr"].as_i64().unwrap();
+    let mcr = ((cr & 3) << 2) | ((cr >> 2) & 3);
+    let ep = v["ep"].as_i64().unwrap();
+    let mep = if ep < 0 { -1 } else { (7 - ep / 8) * 8 + ep % 8 };
+    json!({"b": mb, "stm": 1 - v["stm"].as_i64().unwrap(), "cr": mcr, "ep": mep, "hmc": v["hmc"], "pl": v["pl"]})
+}
+
+fn positions(rest: &[String]) -> i32 {
+    let f = std::io::BufReader::new(std::fs::File::open(&rest[0]).unwrap());
+    let mut out = std::io::BufWriter::new(std::fs::File::create(&rest[1]).unwrap());
+    let mut seen: HashSet<String> = HashSet::new();
+    let mut n = 0u64;
+    for line in f.lines() {
+        let line = line.unwrap();
+        if line.trim().is_empty() {
+            continue;
+        }
+        let r: Value = serde_json::from_str(&line).unwrap();
+        let g = proj::game_from_fields(&r);
+        let fen = g.to_fen();
+        if !seen.insert(fen.clone()) {
+            continue;
+        }
+        n += 1;
+        let fields = proj::position(&g);
+        let mf = mirror_fields(&fields);
+        let res = std::panic::catch_unwind(|| {
+            let mg_game = proj::game_from_fields(&mf);
+            let ev = eval::eval(&g).0;
+            let mev = eval::eval(&mg_game).0;
+            // the two pure assessments: the phase counter is a public field read only by the final blend
+            let mut a = g.clone();
+            a.incremental_eval.phase_value = 24;
+            let mut b = g.clone();
+            b.incremental_eval.phase_value = 0;
+            (ev, mev, eval::eval(&a).0, eval::eval(&b).0)
+        });
+        let mut ev = fields;
+        ev.insert("t".into(), json!("pos"));
+        ev.insert("fen".into(), json!(fen));
+        ev.insert("mb".into(), mf["b"].clone());
+        ev.insert("mstm".into(), mf["stm"].clone());
+        ev.insert("phase".into(), json!(g.incremental_eval.phase_value));
+        match res {
+            Ok((e, m, a, b)) => {
+                ev.insert("panic".into(), json!(false));
+                ev.insert("msg".into(), json!(""));
+                ev.insert("ev".into(), json!(e));
+                ev.insert("mev".into(), json!(m));
+                ev.insert("evmg".into(), json!(a));
+                ev.insert("eveg".into(), json!(b));
+            }
+            Err(_) => {
+                ev.insert("panic".into(), json!(true));
+                ev.insert("msg".into(), json!(crate::LAST_PANIC.lock().unwrap().replace('\n', " ")));
+                for k in ["ev", "mev", "evmg", "eveg"] {
+                    ev.insert(k.into(), json!(0));
+                }
+            }
+        }
+        writeln!(out, "{}", Value::Object(ev)).unwrap();
+    }
+    out.flush().unwrap();
+    println!("{}", json!({"positions": n}));
+    0
+}
+
+fn blend(rest: &[String]) -> i32 {
+    let seed: u64 = rest[0].parse().unwrap();
+    let n: usize = rest[1].parse().unwrap();
+    let mut out = std::io::BufWriter::new(std::fs::File::create(&rest[2]).unwrap());
+    let mut rng = StdRng::seed_from_u64(seed);
+    let grid: [i16; 17] = [-32000, -20000, -3000, -1000, -100, -25, -24, -1, 0, 1, 24, 25, 100, 1000, 3000, 20000, 32000];
+    let mut one = |mg: i16, eg: i16, ph: i16| {
+        let r = std::panic::catch_unwind(|| PhasedEval::new(mg, eg).for_phase(ph).0);
+        let ev = match r {
+            Ok(v) => json!({"t": "blend", "mg": mg, "eg": eg, "ph": ph, "panic": false, "out": v}),
+            Err(_) => json!({"t": "blend", "mg": mg, "eg": eg, "ph": ph, "panic": true, "out": 0}),
+        };
+        writeln!(out, "{ev}").unwrap();
+    };
+    for &mg in &grid {
+        for &eg in &grid {
+            for ph in [0i16, 1, 12, 23, 24, 25, 30, 48, 80, 100] {
+                one(mg, eg, ph);
+            }
+        }
+    }
+    for _ in 0..n {
+        one(rng.gen_range(-32000..=32000), rng.gen_range(-32000..=32000), rng.gen_range(0..=100));
+    }
+    out.flush().unwrap();
+    0
+}
+
+pub fn main(rest: &[String]) -> i32 {
+    match rest[0].as_str() {
+        "positions" => positions(&rest[1..]),
+        "blend" => blend(&rest[1..]),
+        _ => 2,
+    }
 }
